@@ -1,8 +1,16 @@
 /-
 C03 — RoaringBitmap is a set of uint32 with complete ascending enumeration.
 ONLY property theorems and non-vacuity examples; helper lemmas are in `Golib/Proof/C03*.lean`.
+
+Abstraction: `RB.toList r` = all members bucket by bucket (`Golib/Proof/C03Spec.lean`); it is
+strictly ascending (`c03_toList_sorted`), hence determined by its membership predicate: the
+theorems about `Add/Remove/Contains` say the bitmap is observationally a finite set of uint32,
+the theorems about `Range/All/Iter` say every enumeration is that ascending list, in every
+state satisfying the representation invariant `RB.Inv` (all reachable states: `c03_rep_inv`).
 -/
-import Golib.Proof.C03Search
+import Golib.Proof.C03RB
+import Golib.Proof.C03Enum
+import Golib.Proof.C03Iter
 
 namespace Golib.C03
 
@@ -13,5 +21,127 @@ theorem c03_search_spec (a : Array Nat) (x : Nat) (hs : Sorted a) :
   search_spec a x hs
 
 example : Sorted #[1, 5, 9] ∧ search #[1, 5, 9] 6 = some 2 := ⟨by unfold Sorted; decide, by decide⟩
+
+/-- The representation invariant (keys ascending and < 2^16; arrays strictly ascending, 1..4096
+long; cached bitmap cardinality = number of set bits, 1024 words, not empty; `len` = number of
+members) holds initially and is preserved by `Add` and `Remove`, which never panic. -/
+theorem c03_rep_inv :
+    RB.empty.Inv ∧
+    ∀ (r : RB) (x : Nat), r.Inv → x < 4294967296 →
+      (∃ r' ok, r.add x = some (r', ok) ∧ r'.Inv) ∧
+      (∃ r' ok, r.remove x = some (r', ok) ∧ r'.Inv) := by
+  refine ⟨RB.empty_inv, ?_⟩
+  intro r x h hx
+  obtain ⟨r1, ok1, h1, hi1, _⟩ := RB.add_spec r h x hx
+  obtain ⟨r2, ok2, h2, hi2, _⟩ := RB.remove_spec r h x hx
+  exact ⟨⟨r1, ok1, h1, hi1⟩, ⟨r2, ok2, h2, hi2⟩⟩
+
+/-- Non-vacuity: two buckets (an array container under key 0, one under key 3) meet the invariant. -/
+example : (⟨[(0, .arr #[1, 5]), (3, .arr #[7])], 3⟩ : RB).Inv ∧
+    (⟨[(0, .arr #[1, 5]), (3, .arr #[7])], 3⟩ : RB).toList = [1, 5, 196615] := by
+  refine ⟨⟨by decide, by decide, ?_, by decide⟩, by decide⟩
+  intro p hp
+  simp only [List.mem_cons, List.not_mem_nil, or_false] at hp
+  rcases hp with rfl | rfl
+  · exact ⟨by unfold Sorted; decide, by decide, by decide, by decide⟩
+  · exact ⟨by unfold Sorted; decide, by decide, by decide, by decide⟩
+
+/-- The abstraction is a strictly ascending list, i.e. a finite set. -/
+theorem c03_toList_sorted (r : RB) (h : r.Inv) : r.toList.Pairwise (· < ·) :=
+  h.sorted
+
+example : (⟨[(0, .arr #[1, 5]), (3, .arr #[7])], 3⟩ : RB).toList.Pairwise (· < ·) := by decide
+
+/-- `Contains` is membership. -/
+theorem c03_contains (r : RB) (x : Nat) (h : r.Inv) (_hx : x < 4294967296) :
+    r.contains x = some (decide (x ∈ r.toList)) :=
+  RB.contains_spec r h x
+
+example : (⟨[(0, .arr #[1, 5]), (3, .arr #[7])], 3⟩ : RB).contains 196615 = some true := by decide
+
+/-- `Add` never panics, keeps the invariant, answers "newly added", and inserts exactly `x`. -/
+theorem c03_add (r : RB) (x : Nat) (h : r.Inv) (hx : x < 4294967296) :
+    ∃ r' ok, r.add x = some (r', ok) ∧ r'.Inv ∧ ok = !decide (x ∈ r.toList) ∧
+      ∀ y, y ∈ r'.toList ↔ (y = x ∨ y ∈ r.toList) :=
+  RB.add_spec r h x hx
+
+example : ((⟨[(0, .arr #[1, 5]), (3, .arr #[7])], 3⟩ : RB).add 65536).map
+    (fun p => (p.1.toList, p.1.len, p.2)) = some ([1, 5, 65536, 196615], 4, true) := by decide
+
+/-- `Remove` never panics, keeps the invariant, answers "was present", and deletes exactly `x`. -/
+theorem c03_remove (r : RB) (x : Nat) (h : r.Inv) (hx : x < 4294967296) :
+    ∃ r' ok, r.remove x = some (r', ok) ∧ r'.Inv ∧ ok = decide (x ∈ r.toList) ∧
+      ∀ y, y ∈ r'.toList ↔ (y ≠ x ∧ y ∈ r.toList) :=
+  RB.remove_spec r h x hx
+
+/-- Non-vacuity: removing the only member of a bucket makes the bucket vanish. -/
+example : ((⟨[(0, .arr #[1, 5]), (3, .arr #[7])], 3⟩ : RB).remove 196615).map
+    (fun p => (p.1.toList, p.1.cs.length, p.1.len, p.2)) = some ([1, 5], 1, 2, true) := by decide
+
+/-- `Len` is the cardinality. -/
+theorem c03_len (r : RB) (h : r.Inv) : r.len = (r.toList.length : Int) :=
+  h.len
+
+/-- `Range` with a callback that never stops enumerates exactly the ascending member list. -/
+theorem c03_range_eq (r : RB) (h : r.Inv) : r.range 0 = r.toList := by
+  rw [toList_eq_enumAll]; exact range_zero_eq r h.inv0
+
+/-- `All` likewise. -/
+theorem c03_all_eq (r : RB) (h : r.Inv) : r.all 0 = r.toList := by
+  rw [toList_eq_enumAll]; exact all_zero_eq r h.inv0
+
+/-- A callback / `yield` that answers `false` at its `k`-th call has seen exactly the first `k`
+members (early termination of `Range` and `All`). -/
+theorem c03_range_take (r : RB) (h : r.Inv) (k : Nat) (hk : 0 < k) :
+    r.range k = r.toList.take k ∧ r.all k = r.toList.take k := by
+  rw [toList_eq_enumAll]; exact ⟨range_take r h.inv0 k hk, all_take r h.inv0 k hk⟩
+
+example : (⟨[(0, .arr #[1, 5]), (3, .arr #[7])], 3⟩ : RB).range 0 = [1, 5, 196615] ∧
+    (⟨[(0, .arr #[1, 5]), (3, .arr #[7])], 3⟩ : RB).all 2 = [1, 5] := ⟨by decide, by decide⟩
+
+/-- The `Next/Value` state machine of the repaired code (`reset = true`: the inner iterator is
+dropped when the outer one moves to the next bucket) enumerates exactly the ascending member
+list within `Len()+1` calls of `Next`, `Value` never panics, and the iterator stays exhausted. -/
+theorem c03_iter_eq (r : RB) (h : r.Inv) :
+    ∃ it, r.iterAll true = some (r.toList, it) ∧ (it.next true).2 = false := by
+  rw [toList_eq_enumAll]
+  exact iterAll_true_spec r h.inv0 (by rw [← toList_eq_enumAll]; exact h.len)
+
+example : ((⟨[(0, .arr #[1, 5]), (3, .arr #[7])], 3⟩ : RB).iterAll true).map Prod.fst
+    = some [1, 5, 196615] := by decide
+
+/-- The array→bitmap conversion: adding a 4097-th value to a full array container returns a
+bitmap container whose hand-set cached cardinality 4097 is exactly its number of set bits and
+whose members are the old ones plus `x`; the receiver is left untouched. -/
+theorem c03_conversion_card (v : Array Nat) (x : Nat) (hv : (Container.arr v).Inv)
+    (hsz : v.size = 4096) (hx : x < 65536) (hxn : x ∉ v.toList) :
+    ∃ w, arrAdd v x = some (v, .bmp 4097 w, true) ∧ (Container.bmp 4097 w).Inv ∧
+      ∀ y, y ∈ (Container.bmp 4097 w).members ↔ (y = x ∨ y ∈ v.toList) := by
+  obtain ⟨hs, hb, _, _⟩ := hv
+  obtain ⟨w, hadd, hwsz, hbits⟩ := arrAdd_convert v x hs hb hsz hx hxn
+  have hm : ∀ y, y ∈ (Container.bmp 4097 w).members ↔ (y = x ∨ y ∈ v.toList) := by
+    intro y; rw [mem_members_bmp, hbits]; simp
+  refine ⟨w, hadd, ?_, hm⟩
+  have hlen := length_insert (nodup_of_lt hs) (nodup_of_lt (members_bmp_sorted 4097 w)) hxn hm
+  have hvl : v.toList.length = 4096 := by simpa using hsz
+  refine ⟨hwsz, ?_, by decide⟩
+  show (4097 : Int) = ((Container.bmp 4097 w).members.length : Int)
+  omega
+
+/-- Non-vacuity: the full array container `0, 1, …, 4095` meets the hypotheses with `x = 5000`. -/
+example : (Container.arr (Array.range 4096)).Inv ∧ (Array.range 4096).size = 4096 ∧
+    5000 ∉ (Array.range 4096).toList := by
+  refine ⟨⟨?_, ?_, by simp, by simp⟩, by simp, by simp⟩
+  · unfold Sorted; rw [Array.toList_range]; exact List.pairwise_lt_range
+  · intro y hy; rw [Array.toList_range, List.mem_range] at hy; omega
+
+/-- Hence a bitmap container satisfying the invariant exists (the state right after a conversion). -/
+example : ∃ w, (Container.bmp 4097 w).Inv := by
+  have hv : (Container.arr (Array.range 4096)).Inv := by
+    refine ⟨?_, ?_, by simp, by simp⟩
+    · unfold Sorted; rw [Array.toList_range]; exact List.pairwise_lt_range
+    · intro y hy; rw [Array.toList_range, List.mem_range] at hy; omega
+  obtain ⟨w, _, hi, _⟩ := c03_conversion_card (Array.range 4096) 5000 hv (by simp) (by decide) (by simp)
+  exact ⟨w, hi⟩
 
 end Golib.C03
